@@ -78,7 +78,7 @@ func (v *StructSchema) process(ctx *p.SchemaCtx) {
 
 	var dataProv p.DataProvider
 	// 2. cast data as DataProvider
-	if factory, ok := ctx.Data.(p.DpFactory); ok {
+	if factory, ok := ctx.Data.(p.DpFactory); ok && factory != nil {
 		newDp, err := factory()
 		// This is a little bit hacky. But we want to exit here because the error came from zhttp. Meaning we had an error trying to parse the request.
 		// I'm not sure if this is the best behaviour? Do we want to exit here or do we want to continue processing (ofc we add the error always)
